@@ -2,10 +2,13 @@
 # Re-confirms every kept seeded change against the current /repo HEAD and harness and rewrites its
 # meta.json (patch applied to /repo for the checks and undone afterwards; one change at a time).
 cd /verif
+HC=$(git -C /verif log --format=%h -1 -- harness check)
 for d in seeded/*/; do
   id=$(basename "$d")
+  # resume: skip what was already re-confirmed against this /repo HEAD (pass FORCE=1 to redo)
+  if [ -z "$FORCE" ] && python3 -c "import json,sys,subprocess;h=subprocess.run(['git','-C','/repo','log','--format=%h','-1'],capture_output=True,text=True).stdout.strip();m=json.load(open('$d/meta.json'));sys.exit(0 if m['confirmed'].get('repo_head')==h and m.get('harness_commit')=='$HC' else 1)"; then continue; fi
   prop=$(python3 -c "import json;print(json.load(open('$d/meta.json'))['breaks_property'])")
-  python3 seedtest.py "$d" "$prop" --keep "$id" > "/tmp/reseed-$id.json" 2>&1
+  python3 seedtest.py "$d" "$prop" --keep "$id" --own-first > "/tmp/reseed-$id.json" 2>&1
   python3 -c "
 import json
 try:
